@@ -115,7 +115,7 @@ func neverFails(f *ssa.Function) bool {
 		if len(r.Results) == 0 {
 			return false
 		}
-		if !isNilConst(r.Results[len(r.Results)-1]) {
+		if !isNilConst(retVal(r, len(r.Results)-1)) {
 			return false
 		}
 	}
@@ -322,7 +322,7 @@ func swallowCheck(fn *ssa.Function, e ssa.Value) (nEdges int, problems []string,
 			if !region[r.Block()] {
 				continue
 			}
-			o := r.Results[len(r.Results)-1]
+			o := retVal(r, len(r.Results)-1)
 			if hasBoolRes {
 				if c, ok := o.(*ssa.Const); !ok || c.Value == nil || c.Value.String() != "false" {
 					problems = append(problems, fmt.Sprintf("return in block %d (reachable from the non-nil edge %d->%d) does not report rejection (false)", r.Block().Index, ne.from.Index, ne.to.Index))
